@@ -33,7 +33,8 @@ MUTANTS = [
     ('M02-offset-does-not-flush-caches', 'fst_core.py', '            f._cache.clear()  # f._touch()\n',
      '            pass\n', ['C02']),
     ('M03-fail-keeps-modifying-registry-entry', 'fst_core.py',
-     '        else:\n            del _MODIFYING[root]\n\n\nclass _ParamsOffset', '        else:\n            pass\n\n\nclass _ParamsOffset',
+     '        else:\n            del _MODIFYING[root]\n\n\n@pyver(lt=12)  # override _Modifying if py too low',
+     '        else:\n            pass\n\n\n@pyver(lt=12)  # override _Modifying if py too low',
      ['C12']),
 ]
 
